@@ -23,7 +23,7 @@ type c11 struct{}
 func init() {
 	register(c11{})
 	expectedProbes["C11"] = []string{"spelling:relative-to-cwd", "spelling:plain-path", "spelling:file-one-slash", "spelling:scheme-case", "spelling:dot-segments", "spelling:double-slash", "spelling:fragment",
-		"spelling:file-query", "spelling:other-working-directory", "root:http", "root:file", "external-document-requested", "entry:ExpandSpec", "entry:ExpandSchemaWithBasePath", "entry:ResolveRefWithBase"}
+		"spelling:file-query", "spelling:other-working-directory", "root:http", "root:file", "external-document-requested", "entry:ExpandSpec", "entry:ExpandSchemaWithBasePath", "entry:ResolveRefWithBase", "entry:ExpandParameter", "entry:ExpandResponse", "root:path-needs-escaping"}
 }
 
 func (c11) ID() string { return "C11" }
@@ -166,11 +166,14 @@ func (c11) Gen(r *sim.RNG, tier string, idx int) *Scenario {
 	cfg.HTTP = r.Bool(0.3)
 	sc.Cfg = &cfg
 	w := gen.Generate(r, cfg)
-	switch r.Intn(4) {
+	switch r.Intn(6) {
 	case 0:
 		w = relocate(w, "file://"+gen.Prefix+"/", "http://h.test/w/")
 	case 1:
 		w = relocate(w, "file://"+gen.Prefix+"/", "https://s.test/deep/w/")
+	case 2:
+		// a folder whose name needs percent-encoding in a URL
+		w = relocate(w, "file://"+gen.Prefix+"/api/", "file://"+gen.Prefix+"/my%20api/")
 	}
 	sc.World = w
 	k := 4
@@ -191,7 +194,7 @@ func (c11) Gen(r *sim.RNG, tier string, idx int) *Scenario {
 			}
 		}
 	}
-	entry := []string{"ExpandSpec", "ExpandSpec", "ExpandSchemaWithBasePath", "ResolveRefWithBase"}[r.Intn(4)]
+	entry := []string{"ExpandSpec", "ExpandSpec", "ExpandSchemaWithBasePath", "ResolveRefWithBase", "ExpandParameter", "ExpandResponse"}[r.Intn(6)]
 	op := Op{Entry: entry, Opts: Opts{Absolute: r.Bool(0.3), Skip: r.Bool(0.2)}}
 	els := Elements(w)
 	var defs []string
@@ -202,6 +205,28 @@ func (c11) Gen(r *sim.RNG, tier string, idx int) *Scenario {
 	}
 	if entry != "ExpandSpec" && len(defs) == 0 {
 		op.Entry = "ExpandSpec"
+	}
+	pick := func(prefix string) string {
+		var c []string
+		for _, e := range els {
+			if strings.HasPrefix(e, prefix) {
+				c = append(c, e)
+			}
+		}
+		if len(c) == 0 {
+			return ""
+		}
+		return c[r.Intn(len(c))]
+	}
+	switch op.Entry {
+	case "ExpandParameter":
+		if op.Ptr = pick("/parameters/"); op.Ptr == "" {
+			op.Entry = "ExpandSpec"
+		}
+	case "ExpandResponse":
+		if op.Ptr = pick("/responses/"); op.Ptr == "" {
+			op.Entry = "ExpandSpec"
+		}
 	}
 	switch op.Entry {
 	case "ExpandSchemaWithBasePath":
@@ -284,6 +309,9 @@ func (c11) Run(sc *Scenario) *Verdict {
 	op := sc.Ops[0]
 	store := sim.NewStore(w.Docs, nil)
 	ru, _ := url.Parse(w.Root)
+	if strings.Contains(w.Root, "%20") {
+		v.probe("root:path-needs-escaping")
+	}
 	if ru.Scheme == "file" {
 		v.probe("root:file")
 	} else {
